@@ -1,14 +1,17 @@
 #!/usr/bin/env python3
 """Copies the independently confirmed seeded changes (bin/dev/confirm_mutants.py results) into /verif/seeded/<id>/."""
 import json, os, shutil, subprocess
-R = json.load(open("/tmp/confirm/results.json"))
+MUT = os.environ.get("MUT_DIR", "/tmp/mut")
+SUF = os.environ.get("SEED_SUFFIX", "")
+R = json.load(open(os.environ.get("CONFIRM_DIR", "/tmp/confirm") + "/results.json"))
 head = subprocess.run("git -C /repo rev-parse --short HEAD", shell=True, capture_output=True, text=True).stdout.strip()
 os.makedirs("/verif/seeded", exist_ok=True)
 for name, r in sorted(R.items()):
     if not r.get("ok"):
         continue
     prop, m = name.split("-")
-    src = "/tmp/mut/%s-out/%s" % (prop, m)
+    src = "%s/%s-out/%s" % (MUT, prop, m)
+    name = "%s-%s%s" % (prop, SUF, m)
     dst = "/verif/seeded/%s" % name
     os.makedirs(dst, exist_ok=True)
     shutil.copy(src + "/patch.diff", dst + "/patch.diff")
